@@ -12,6 +12,8 @@ import (
 	"testing"
 	"time"
 
+	"github.com/ddddddO/gtree"
+	"github.com/ddddddO/gtree/markdown"
 	"github.com/fatih/color"
 )
 
@@ -80,6 +82,9 @@ func register(p *Property) { properties[p.ID] = p }
 
 // runCase executes one case and returns its failure (nil if the property held).
 func runCase(p *Property, c *Ctx) (f *failure) {
+	// every case starts from the package-level state of a fresh process
+	gtree.SimResetGlobals()
+	markdown.SimResetGlobals()
 	defer func() {
 		if r := recover(); r != nil {
 			if _, ok := r.(caseAbort); ok {
